@@ -666,9 +666,11 @@ def parse_equation(equation: str) -> List[Symbol]:
             # previous entry
             if name in functions:
                 assert symbol == functions[name]
-            # Otherwise, store
+            # Otherwise, store (combining with any previous symbol of the same
+            # name, to raise an error if that name is already in use as a
+            # variable)
             else:
-                symbols[name] = symbol
+                symbols[name] = symbols.get(name, symbol).combine(symbol)
                 functions[name] = symbol
             continue
 
